@@ -268,6 +268,53 @@ def refill_histories(ctx):
                                      rtol=1e-12, atol=1e-13)
 
 
+def reassign_histories(ctx):
+    """moments, reassign the grid's points (or weights) through the setter, moments again with the SAME centres and
+    order: the second answer is that of a fresh grid holding the new arrays (added after seeded change C14-E: a
+    per-grid table of solid harmonics that the points setter does not clear)."""
+    rng = np.random.default_rng([ctx.seed, 142])
+    for gname in ("3d", "2d", "uniform", "periodic", "local"):
+        for what in ("points", "weights", "points+=", "weights*="):
+            for kind in ("cartesian", "radial", "pure", "pure-radial"):
+                if kind in ("pure", "pure-radial") and gname == "2d":
+                    continue
+                ctx.count(section="reassign")
+                case = {"route": "reassign", "grid": gname, "what": what, "type": kind}
+                g = make_grid(gname, ctx.seed)
+                n, dim = g.size, np.asarray(g.points).shape[1]
+                f = np.cos(np.arange(n) * 0.7) + 0.3
+                centres = np.vstack([np.asarray(g.points)[n // 3], np.full(dim, 0.2)])
+                p0, w0 = np.array(g.points, dtype=float), np.array(g.weights, dtype=float)
+                try:
+                    with warnings.catch_warnings():
+                        warnings.simplefilter("ignore")
+                        g.moments(2, centres, f, type_mom=kind)
+                        if what == "points":
+                            g.points = p0[::-1] * 0.8 + 0.1
+                        elif what == "weights":
+                            g.weights = w0[::-1] * 1.5
+                        elif what == "points+=":
+                            g.points += 0.25
+                        else:
+                            g.weights *= 3.0
+                        pn, wn = np.array(g.points, dtype=float), np.array(g.weights, dtype=float)
+                        got = np.asarray(g.moments(2, centres, f, type_mom=kind), dtype=float)
+                except AttributeError:
+                    ctx.inadm(section="reassign")      # the class offers no setter
+                    continue
+                expect_p = {"points": p0[::-1] * 0.8 + 0.1, "points+=": p0 + 0.25}.get(what, p0)
+                expect_w = {"weights": w0[::-1] * 1.5, "weights*=": w0 * 3.0}.get(what, w0)
+                if not (np.allclose(pn, expect_p, rtol=1e-15, atol=1e-15) and np.allclose(wn, expect_w, rtol=1e-15)):
+                    ctx.violation("reassign:grid-does-not-hold-the-assigned-arrays", f"{gname}: after {what} the grid's arrays are not the "
+                                  f"assigned ones", case)
+                    continue
+                ref, _, sc = ref_moments(pn, wn, f, centres, 2, kind)
+                ctx.nontrivial(("reassign", gname, what, kind), section="reassign")
+                if got.shape != ref.shape or np.any(_gt(np.abs(got - ref), 1e-11 * (sc + 1e-3 * np.max(sc)))):
+                    ctx.violation(f"reassign:{kind}:answers-for-the-old-arrays", f"{gname}: moments after reassigning {what} differ from the "
+                                  f"direct quadrature on the grid's current points and weights", case)
+
+
 def run(ctx):
     jobs = []
     for gname in ("1d", "2d", "3d", "atom"):
@@ -290,11 +337,14 @@ def run(ctx):
         ctx.merge(res)
     ctx.guarded("dipole", dipole, ctx)
     ctx.guarded("refill", refill_histories, ctx)
+    ctx.guarded("reassign", reassign_histories, ctx)
     ctx.cov["configurations"] = len(jobs)
     ctx.exhaustive = True
 
 
 def replay(ctx, case):
+    if case.get("route") == "reassign":
+        return reassign_histories(ctx)
     if case.get("route") == "refill":
         return refill_histories(ctx)
     if case.get("route") == "dipole":
